@@ -337,12 +337,17 @@ def concretize_type(t, reg: Registry):
         "seq": typing.Sequence, "mseq": typing.MutableSequence, "aset": typing.AbstractSet,
     }
     if tag in one:
+        if getattr(reg, "pep585", False) and tag in ("list", "set", "frozenset"):
+            # PEP 585: the builtin class itself subscripted (list[X]); its __module__ is "builtins"
+            return {"list": list, "set": set, "frozenset": frozenset}[tag][concretize_type(t[1], reg)]
         return subscript(one[tag], concretize_type(t[1], reg))
     if tag == "vtuple":
         return subscript(typing.Tuple, (concretize_type(t[1], reg), ...))
     if tag == "tuple":
         if not t[1]:
             return typing.Tuple[()]
+        if getattr(reg, "pep585", False):
+            return tuple[tuple(concretize_type(e, reg) for e in t[1])]
         return subscript(typing.Tuple, tuple(concretize_type(e, reg) for e in t[1]))
     if tag == "utuple":
         pre = [concretize_type(e, reg) for e in t[1]]
@@ -359,6 +364,8 @@ def concretize_type(t, reg: Registry):
         "mapping": typing.Mapping, "mmapping": typing.MutableMapping, "chainmap": typing.ChainMap,
     }
     if tag in two:
+        if getattr(reg, "pep585", False) and tag == "dict":
+            return dict[concretize_type(t[1], reg), concretize_type(t[2], reg)]
         return subscript(two[tag], (concretize_type(t[1], reg), concretize_type(t[2], reg)))
     if tag == "mproxy":
         return types.MappingProxyType[concretize_type(t[1], reg), concretize_type(t[2], reg)]
